@@ -31,6 +31,13 @@ MISSED_FIRST = {
     "C19-r8-3": "harness: an export that returns normally must leave a file (was a KeyError of the harness, exit 2)",
     "C20-r8-1": "OS seam: flock/lockf/ftruncate/truncate/fstat/fdatasync on simulated descriptors (was flagged for the wrong reason: OSError out of the seam); nothing may follow the saved object in a completed file",
     "C20-r8-3": "models world: a context function used only on the steady side of an equation; check_steady(equation_switch='steady') among the behaviour observables",
+    "C09-r9-1": "dates world: list(reversed(span)) is part of every span check (static case; the in-flight case stays Python's sequence protocol)",
+    "C09-r9-2": "dates world: offsets given as NumPy integers, unsigned ones included",
+    "C09-r9-3": "dates world: open-ended spans resolved against other live spans, open ones included (offsets compose; a later resolution against a closed context settles the result)",
+    "C19-r9-1": "databox world: name_row_transform on import, together with description_row",
+    "C19-r9-2": "databox world: fallbacks and overwrites declared in an order of their own, not in the order of the requested names",
+    "C20-r9-2": "models world: a model with steady autovalues and no shocks (exportable to the portable form)",
+    "C20-r9-3": "models world: growth scenarios - variants equal in everything but their steady change - followed by solve",
     "C20-r4-2": "models world: growing a model that already has several variants made a regular event (the change was caught on arrival, then slipped under VERIF_SEED=0 after generator changes)",
 }
 
